@@ -1289,16 +1289,22 @@ void rfbShutdownServer(rfbScreenInfoPtr screen,rfbBool disconnectClients) {
     rfbClientPtr nextCl, currentCl = rfbClientIteratorNext(iter);
 
     while(currentCl) {
-      nextCl = rfbClientIteratorNext(iter);
+#ifdef LIBVNCSERVER_HAVE_LIBPTHREAD
+      /* The iterator's reference keeps currentCl alive only until the iterator is advanced: in
+         threaded mode the client's own thread frees the record as soon as that reference is gone.
+         Read what is needed for the join and notify the client first, advance afterwards. */
+      pthread_t clientThread = currentCl->client_thread;
+#endif
       if (currentCl->sock != RFB_INVALID_SOCKET) {
         /* we don't care about maxfd here, because the server goes away */
         rfbCloseClient(currentCl);
       }
+      nextCl = rfbClientIteratorNext(iter);
 
 #ifdef LIBVNCSERVER_HAVE_LIBPTHREAD
-    if(currentCl->screen->backgroundLoop) {
+    if(screen->backgroundLoop) {
       /* Wait for threads to finish. The thread has already been pipe-notified by rfbCloseClient() */
-      pthread_join(currentCl->client_thread, NULL);
+      pthread_join(clientThread, NULL);
     } else {
       /*
 	In threaded mode, rfbClientConnectionGone() is called by the client-to-server thread.
